@@ -114,6 +114,8 @@ type Sub struct {
 	Bound func(tier string) string
 	// Setup, if set, runs once before Gen (warm lazily-built globals, fixtures).
 	Setup func(tier string) error
+	// Replays is how many times a witness is re-executed before it is believed (default 5).
+	Replays int
 }
 
 // Check is a property check.
@@ -411,7 +413,11 @@ func reproduces(sub *Sub, tier string, agg *classAgg) (bool, string) {
 	if err != nil {
 		return false, "case not serialisable: " + err.Error()
 	}
-	for i := 0; i < 5; i++ {
+	times := sub.Replays
+	if times <= 0 {
+		times = 5
+	}
+	for i := 0; i < times; i++ {
 		c := sub.NewCase()
 		if err := json.Unmarshal(cb, c); err != nil {
 			return false, "case not decodable: " + err.Error()
